@@ -1475,3 +1475,40 @@ def drv_fi_values(doc, args, inst):
 
 
 DRIVERS.update({'maxvol': drv_maxvol, 'cross_index': drv_cross_index, 'fi_values': drv_fi_values})
+
+
+def drv_local_op(doc, args, inst):
+    """the local operator of amen_solve against its spec: matvec(x) == vec(B(P(x)))"""
+    from torchtt.solvers import _LinearOp
+    sz = inst.get('sizes', {})
+    r, n, R, s, S = [clampi(sz.get(k, 2), 1, 4) for k in ('r', 'n', 'R', 's', 'S')]
+    if max(r, n, R) == 1:
+        n = 3
+    prec, apply = args.get('prec'), args.get('apply', True)
+    for seed in range(3):
+        g = tn.Generator().manual_seed(seed)
+        Pl = tn.randn([r, s, r], dtype=tn.float64, generator=g) + (2.0 * tn.eye(r, dtype=tn.float64))[:, None, :]
+        Pr = tn.randn([R, S, R], dtype=tn.float64, generator=g) + (2.0 * tn.eye(R, dtype=tn.float64))[:, None, :]
+        Ak = tn.randn([s, n, n, S], dtype=tn.float64, generator=g) + (3.0 * tn.eye(n, dtype=tn.float64))[None, :, :, None]
+        x = tn.randn([r * n * R, 1], dtype=tn.float64, generator=g)
+        snap = [t.clone() for t in (Pl, Pr, Ak, x)]
+        try:
+            op = _LinearOp(Pl, Pr, Ak, [r, n, R], prec)
+            w = op.matvec(x) if apply else op.matvec(x, False)
+        except Exception as e:
+            return ['_LinearOp(prec=%r).matvec raises %s: %s (r=%d n=%d R=%d s=%d S=%d)' % (prec, type(e).__name__, str(e)[:120], r, n, R, s, S)]
+        xs = x.reshape(r, n, R)
+        if prec is not None and apply:
+            xs = tn.einsum('rnR,rRmn->rmR', xs, op.J) if prec == 'c' else tn.einsum('rnR,rmLnR->rmL', xs, op.J)
+        ref = tn.einsum('lsr,smnS,LSR,rnR->lmL', Pl, Ak, Pr, xs).reshape(-1, 1)
+        if list(w.shape) != list(ref.shape):
+            return ['matvec result has shape %s, expected %s' % (list(w.shape), list(ref.shape))]
+        e = relerr(w, ref)
+        if not e < 1e-10:
+            return ['_LinearOp(prec=%r).matvec(x%s) differs from B(P(x)) (rel.err %.3g) for r=%d n=%d R=%d s=%d S=%d' % (prec, '' if apply else ', False', e, r, n, R, s, S)]
+        if any(not tn.equal(a, b) for a, b in zip(snap, (Pl, Pr, Ak, x))):
+            return ['matvec modified one of its operands']
+    return []
+
+
+DRIVERS.update({'local_op': drv_local_op})
